@@ -34,7 +34,7 @@ RULE = ("Hypothesis-generated histories of 1-25 (thorough: 60) operations over g
 ASSUMPTIONS = ["re-import under an existing non-empty id on the per-graph store may replace or skip (documented 'skip')",
                "operations addressed to a graph without nodes (clone/list/update-all) are unspecified",
                "deliberate GraphID rewrites are C14's subject and not generated here"]
-BUDGET = {"quick": 3500, "thorough": 80000}
+BUDGET = {"quick": 3500, "thorough": 40000}
 MIN_LABEL_FRACTION = {"nontrivial": 0.4, "reimport-existing": 0.15, "delete-then-reimport": 0.05,
                       "clone-then-mutate": 0.03, "disjoint": 0.3, "collide-import": 0.2}
 
